@@ -1,4 +1,5 @@
 import Tea.Proofs.Inline
+import Tea.Proofs.AltRoundtrip
 /-
 C06 — After every render the terminal shows exactly the latest view.
 
@@ -25,8 +26,15 @@ it).  Vocabulary (defined in `Tea/Proofs/Paint.lean`, `Tea/Proofs/AltScreen.lean
 * `AltInv r t`    — renderer `r` and terminal `t` are both on the alt screen with the
   same size `w ≥ 1`, `h ≥ 1`; window rows `≥ r.altLinesRendered` are blank; if the line
   cache `r.lastLines` is valid it has `altLinesRendered` lines and window row `i` shows
-  (the visible part of) cached line `i`; and a non-empty `lastRender` has the cache that `flush`
-  computed for it.
+  (the visible part of) cached line `i`; a non-empty `lastRender` has the cache that `flush`
+  computed for it; and every cell of the alt buffer outside the window rectangle (tape rows
+  `≥ top + h`, columns `≥ w`) is blank — nothing is ever written there, which is what makes
+  a window that GROWS show blank cells (`Term.resize` does not reflow);
+* `runT r t ops`  — run a history feeding the terminal (`Tea/Proofs/AltScreen.lean`): a `.size w h`
+  step is the terminal being resized (`Term.resize t w h`: the active buffer is cut to the new
+  window rectangle, the cursor clamped) while the renderer handles the WindowSizeMsg (new
+  size, cache invalidated, nothing written); for every other step the terminal receives what
+  the renderer writes; `altStableR` = `altStable` plus resizes to at least 1x1.
 
 * `viewTop r t`  — inline: the tape row of the first view line, `cr + 1 - max linesRendered 1`;
 * `InlineInv r t` — renderer `r` and terminal `t` are both on the main screen with the same
@@ -193,6 +201,55 @@ theorem C06_alt_always (r : RState) (t : Term) (hinv : AltInv r t) (ops : List R
   rw [a2, a4, a5]
   exact ⟨a8, a9⟩
 
+/-- **A resize on the alt screen keeps the invariant.**  The terminal is resized to `w x h`
+(`Term.resize`: the alt buffer is cut to the new window rectangle, rows that fall below the new
+bottom are dropped, no reflow) and the renderer handles the `WindowSizeMsg` (`.size w h`: it adopts
+the size, invalidates its cache and writes nothing).  `AltInv` holds again at the new size: in
+particular the rows from `altLinesRendered` on of the NEW window are blank — also those that a
+growing window brings in, because nothing was ever written outside the old rectangle. -/
+theorem C06_alt_resize (r : RState) (t : Term) (hinv : AltInv r t) (w h : Nat) (hw : 1 ≤ w)
+    (hh : 1 ≤ h) :
+    AltInv (step r (.size w h)).1 (resize t w h) ∧ (step r (.size w h)).2 = [] ∧
+    (resize t w h).w = w ∧ (resize t w h).h = h ∧ (resize t w h).main = t.main ∧
+    (resize t w h).alt.top = t.alt.top := by
+  obtain ⟨a1, a2⟩ := alt_resize_inv r t hinv w h hw hh
+  obtain ⟨_, b2, b3, b4, b5, _⟩ := resize_alt t w h hinv.onAlt
+  exact ⟨a1, a2, b2, b3, b4, b5⟩
+
+/-- **The invariant is kept by every history on the alt screen, RESIZES included**
+(`altStableR`: the steps of `altStable` and `.size w h` with `1 ≤ w`, `1 ≤ h`), the terminal being
+resized at each `.size` step and receiving what the renderer writes at every other step
+(`runT`). -/
+theorem C06_alt_history_resize (ops : List ROp) : ∀ (r : RState) (t : Term), AltInv r t →
+    (∀ o ∈ ops, altStableR o = true) →
+    AltInv (runT r t ops).1 (runT r t ops).2 := by
+  induction ops with
+  | nil => intro r t h _; exact h
+  | cons o os ih =>
+    intro r t h hs
+    have h1 := alt_stepT_inv r t h o (hs o (by simp))
+    exact ih _ _ h1 (fun o' ho' => hs o' (by simp [ho']))
+
+/-- Consequently, after ANY history on the alt screen — views, flushes, repaints, ClearScreen,
+modes, prints, RESIZES — the next `write s; flush` leaves the window showing exactly the frame
+of `s` at the size after the last resize (`t'.w`, `t'.h`, which the flush does not change): rows
+`< n` are the visible part of each line, cut at `t'.w` and padded; rows `n .. t'.h - 1` are blank. -/
+theorem C06_alt_always_resize (r : RState) (t : Term) (hinv : AltInv r t) (ops : List ROp)
+    (hs : ∀ o ∈ ops, altStableR o = true) (s : Bytes)
+    (r1 : RState) (t1 t' : Term) (hr1 : r1 = (runT r t ops).1)
+    (ht1 : t1 = (runT r t ops).2)
+    (ht' : t' = applyOps t1 (flush (write r1 s)).2) :
+    (∀ i l, (frameLines (write r1 s))[i]? = some l →
+      t'.alt.row t'.w (t'.alt.top + i) = padLine t'.w (Ansi.visible l)) ∧
+    (∀ i, (frameLines (write r1 s)).length ≤ i → i < t'.h →
+      t'.alt.row t'.w (t'.alt.top + i) = List.replicate t'.w 32) ∧
+    t'.w = t1.w ∧ t'.h = t1.h ∧
+    1 ≤ (frameLines (write r1 s)).length ∧ (frameLines (write r1 s)).length ≤ t'.h := by
+  have h1 : AltInv r1 t1 := by rw [hr1, ht1]; exact C06_alt_history_resize ops r t hinv hs
+  obtain ⟨_, a2, _, a4, a5, a6, a7, a8, a9, _⟩ := C06_alt_flush r1 t1 h1 s _ t' rfl ht'
+  rw [a2, a4, a5]
+  exact ⟨a8, a9, rfl, rfl, a6, a7⟩
+
 /-- **Level 4: every inline render without printed lines shows exactly the latest view.**
 If renderer and terminal satisfy `InlineInv` (see the header) and no printed lines are queued,
 then after `write s` and `flush` — skipping, repainting, shrinking (ED0), growing past the
@@ -231,6 +288,71 @@ theorem C06_inline_flush (r : RState) (t : Term) (hinv : InlineInv r t) (hq : r.
   rw [a10] at a3
   omega
 
+/-- **Alt-screen round trip.**  From an inline view (`InlineInv r t`): EnterAltScreen, then any
+`altStable` history on the alt screen — views, flushes, prints, modes, ClearScreen, repaints —
+then ExitAltScreen.  The inline invariant holds again; the main screen has exactly the cells, the
+window and the cursor row it had; the renderer remembers how many lines its inline view had; and
+the line cache is invalid, so that the next write + flush repaints exactly the latest view in
+place (`C06_inline_after_alt`).
+
+No side condition is needed on the history: a `printLine` issued while on the alt screen is
+IGNORED by the renderer (`step r (.printLine _) = (r, [])` when `altActive`, as in
+`standardRenderer.handleMessages`: `if !r.altScreenActive`), so it is neither printed nor queued,
+and an alt-screen flush neither prints nor drops the queue (`flushQ` requires `!altActive`).
+Hence the queue of printed lines after the round trip is the queue before it
+(`r3.queued = r.queued`); the hypothesis `r.queued = []` is not needed and the conclusion
+`r3.queued = []` follows from it when it holds. -/
+theorem C06_alt_roundtrip (r : RState) (t : Term) (hinv : InlineInv r t) (ops : List ROp)
+    (hs : ∀ o ∈ ops, altStable o = true) :
+    let r1 := (enterAlt r).1
+    let t1 := applyOps t (enterAlt r).2
+    let r2 := (run r1 ops).1
+    let t2 := (run r1 ops).2.foldl applyOps t1
+    let r3 := (exitAlt r2).1
+    let t3 := applyOps t2 (exitAlt r2).2
+    InlineInv r3 t3 ∧ r3.queued = r.queued ∧ t3.main.cells = t.main.cells ∧
+    t3.main.top = t.main.top ∧ t3.main.cr = t.main.cr ∧
+    r3.linesRendered = r.linesRendered ∧ r3.lastLines = none ∧
+    t3.w = t.w ∧ t3.h = t.h :=
+  alt_roundtrip r t hinv ops hs
+
+/-- **The first inline render after coming back from the alt screen** (nothing queued): the view
+is repainted in place — it starts at the tape row `viewTop r t` where the inline view started
+BEFORE the alt screen was entered, view row `i` is line `i` of the new frame (visible part, cut at
+the width, padded), every window row below the cursor is blank, every row above `viewTop r t` is
+what it was before the alt screen was entered, the window scrolled by exactly what the view
+needs, and the inline invariant holds again. -/
+theorem C06_inline_after_alt (r : RState) (t : Term) (hinv : InlineInv r t) (hq : r.queued = [])
+    (ops : List ROp) (hs : ∀ o ∈ ops, altStable o = true) (s : Bytes) :
+    let r1 := (enterAlt r).1
+    let t1 := applyOps t (enterAlt r).2
+    let r2 := (run r1 ops).1
+    let t2 := (run r1 ops).2.foldl applyOps t1
+    let r3 := (exitAlt r2).1
+    let t3 := applyOps t2 (exitAlt r2).2
+    let r' := (flush (write r3 s)).1
+    let t' := applyOps t3 (flush (write r3 s)).2
+    InlineInv r' t' ∧ r'.queued = [] ∧ t'.w = t.w ∧ t'.h = t.h ∧
+    t'.main.cr + 1 = viewTop r t + (frameLines (write r3 s)).length ∧
+    t'.main.cc = 0 ∧ t'.main.pw = false ∧
+    (∀ i l, (frameLines (write r3 s))[i]? = some l →
+      t'.main.row t.w (viewTop r t + i) = padLine t.w (Ansi.visible l)) ∧
+    (∀ ρ, t'.main.cr < ρ → ρ < t'.main.top + t.h → t'.main.row t.w ρ = List.replicate t.w 32) ∧
+    (∀ ρ, ρ < viewTop r t → ∀ c, t'.main.cells ρ c = t.main.cells ρ c) ∧
+    t'.main.top = max t.main.top (viewTop r t + (frameLines (write r3 s)).length - t.h) := by
+  intro r1 t1 r2 t2 r3 t3 r' t'
+  obtain ⟨a1, a2, a3, a4, a5, a6, _, a8, a9⟩ := C06_alt_roundtrip r t hinv ops hs
+  obtain ⟨b1, b2, _, b4, b5, b6, b7, b8, b9, b10, b11, b12⟩ :=
+    C06_inline_flush r3 t3 a1 (a2.trans hq) s r' t' rfl rfl
+  have hv : viewTop r3 t3 = viewTop r t := viewTop_congr a6 a5
+  rw [hv] at b6 b9 b11 b12
+  rw [a8] at b4 b9 b10
+  rw [a9] at b5 b10 b12
+  rw [a4] at b12
+  refine ⟨b1, b2, b4, b5, b6, b7, b8, b9, b10, ?_, b12⟩
+  intro ρ hρ c
+  rw [b11 ρ hρ c, a3]
+
 /-! ### concrete runs (non-vacuity), W = 10, H = 5, alt screen -/
 
 /-- the first `k` window rows of the alt screen -/
@@ -248,7 +370,7 @@ def t0 : Term := { w := 10, h := 5, onAlt := true }
 /-- the initial pair satisfies the invariant (nothing rendered, blank screen) -/
 example : AltInv r0 t0 :=
   ⟨rfl, rfl, rfl, rfl, by decide, by decide, fun _ _ _ _ _ => rfl,
-    fun _ h => by simp [r0] at h, fun h => by simp [r0] at h⟩
+    fun _ h => by simp [r0] at h, fun h => by simp [r0] at h, fun _ _ _ => rfl⟩
 
 /-- "aaa\nbbb\nccc" then "aaa\nbbb": the second flush writes HOME, LF (skip "aaa"), ED0, "bbb",
 EL0, CUP 2 and the screen is "aaa", "bbb", blank, blank, blank -/
@@ -274,6 +396,40 @@ set_option maxRecDepth 100000 in
 example : altRows (renderAll r0 t0 [[49,10,50,10,51,10,52,10,53,10,54,10,
       97,98,99,100,101,102,103,104,105,106,107,108], []]).2 5 =
     List.replicate 5 (List.replicate 10 32) := by decide
+
+/-! ### resizes on the alt screen: 10x5, then 6x2, then 8x4 -/
+
+/-- the history: "aaa\nbbb\nccc\nddd" on the 10x5 screen; resize to 6x2 and render
+"abcdefgh\nxy\nzz"; resize to 8x4 and render "q" -/
+def resizeOps : List ROp :=
+  [.write [97,97,97,10,98,98,98,10,99,99,99,10,100,100,100], .flush,
+   .size 6 2, .write [97,98,99,100,101,102,103,104,10,120,121,10,122,122], .flush,
+   .size 8 4, .write [113], .flush]
+
+example : ∀ o ∈ resizeOps, altStableR o = true := by decide
+
+set_option maxRecDepth 100000 in
+/-- after the first render: four rows of the 10x5 screen -/
+example : altRows (runT r0 t0 (resizeOps.take 2)).2 5 =
+    [[97,97,97,32,32,32,32,32,32,32], [98,98,98,32,32,32,32,32,32,32],
+     [99,99,99,32,32,32,32,32,32,32], [100,100,100,32,32,32,32,32,32,32],
+     [32,32,32,32,32,32,32,32,32,32]] := by decide
+
+set_option maxRecDepth 100000 in
+/-- after the resize to 6x2 and the second render: the 2-row window shows the LAST two lines
+"xy", "zz" of the three-line view (6 cells each) -/
+example :
+    let t := (runT r0 t0 (resizeOps.take 5)).2
+    (t.w, t.h) = (6, 2) ∧ altRows t 2 = [[120,121,32,32,32,32], [122,122,32,32,32,32]] := by decide
+
+set_option maxRecDepth 100000 in
+/-- after the resize to 8x4 and the third render: "q" and three blank rows, 8 cells each — the
+old "ccc" / "ddd" rows (dropped by the resize to 2 rows) and the columns beyond 6 come back blank -/
+example :
+    let t := (runT r0 t0 resizeOps).2
+    (t.w, t.h) = (8, 4) ∧
+    altRows t 4 = [[113,32,32,32,32,32,32,32], [32,32,32,32,32,32,32,32],
+                   [32,32,32,32,32,32,32,32], [32,32,32,32,32,32,32,32]] := by decide
 
 /-! ### styled lines (SGR sequences inside the view), W = 10, H = 5, alt screen -/
 
@@ -345,5 +501,52 @@ example :
       [[120,120,120,120,120,120,120,120,120,120], [48,49,50,51,52,53,54,55,56,57],
        List.replicate 10 32, List.replicate 10 32, List.replicate 10 32] ∧
     t'.main.top = 2 ∧ t'.main.cr = 3 ∧ t'.main.cc = 0 ∧ t'.main.pw = false := by decide
+
+/-! ### alt-screen round trip from the inline view (W = 10, H = 5, cursor starts on window row 3) -/
+
+/-- enter the alt screen, run `ops` there, leave it -/
+def roundTrip (r : RState) (t : Term) (ops : List ROp) : RState × Term :=
+  let r1 := (enterAlt r).1
+  let t1 := applyOps t (enterAlt r).2
+  let r2 := (run r1 ops).1
+  let t2 := (run r1 ops).2.foldl applyOps t1
+  ((exitAlt r2).1, applyOps t2 (exitAlt r2).2)
+
+/-- what happens on the alt screen: a three-line view, a printed line (ignored there),
+ClearScreen, a hidden cursor, another view -/
+def altOps : List ROp :=
+  [.write [122,122,122,10,121,121,121,10,120,120,120], .flush, .printLine [112], .clearScreen,
+   .hideCursor, .write [107], .flush]
+
+example : ∀ o ∈ altOps, altStable o = true := by decide
+
+set_option maxRecDepth 100000 in
+/-- the inline view "a\nb" (tape rows 3, 4), then the round trip: the alt screen showed "k"; back on
+the main screen rows 2..4 read "xxxxxxxxxx", "a", "b" as before, the cursor is on row 4, the
+renderer still counts 2 inline lines, its cache is invalid and nothing is queued -/
+example :
+    let p := renderAll ri ti [[97,10,98]]
+    let q := roundTrip p.1 p.2 altOps
+    q.2.alt.cells 0 0 = 107 ∧ q.2.onAlt = false ∧
+    mainRows q.2 2 4 =
+      [[120,120,120,120,120,120,120,120,120,120], [97,32,32,32,32,32,32,32,32,32],
+       [98,32,32,32,32,32,32,32,32,32], List.replicate 10 32] ∧
+    q.2.main.top = 0 ∧ q.2.main.cr = 4 ∧ q.2.main.cc = 0 ∧ q.2.main.pw = false ∧
+    q.1.linesRendered = 2 ∧ q.1.lastLines = none ∧ q.1.queued = [] ∧ q.1.altActive = false := by
+  decide
+
+set_option maxRecDepth 100000 in
+/-- ... and the next view "A\nb\nc" is painted in place from row 3 (CUU 1 first: the renderer
+remembers its 2 lines), scrolling the window by one row -/
+example :
+    let p := renderAll ri ti [[97,10,98]]
+    let q := roundTrip p.1 p.2 altOps
+    let t' := (renderAll q.1 q.2 [[65,10,98,10,99]]).2
+    (flush (write q.1 [65,10,98,10,99])).2 =
+      [.cuu 1, .cr, .text [65], .el0, .cr, .lf, .text [98], .el0, .cr, .lf, .text [99], .el0, .cub 10] ∧
+    mainRows t' 2 5 =
+      [[120,120,120,120,120,120,120,120,120,120], [65,32,32,32,32,32,32,32,32,32],
+       [98,32,32,32,32,32,32,32,32,32], [99,32,32,32,32,32,32,32,32,32], List.replicate 10 32] ∧
+    t'.main.top = 1 ∧ t'.main.cr = 5 ∧ t'.main.cc = 0 ∧ t'.main.pw = false := by decide
 
 end Tea.Props.C06
